@@ -282,8 +282,8 @@ theorem specMul_E_nonneg {N : Nat} {σ Uc u : ℚ} (hσ : 0 ≤ σ) (hU : 0 ≤ 
 theorem xstep_mul {env : Env} (he : EnvOK env) {N r : Nat} {mk : MulKey} {ak : AutKeys} {pool : DPool}
     (hp : AllOK env N r pool) {d a b : Nat} {mp : Pool} (hm : stepR env (DPool.cts pool) (.mul d a b) = .ok mp)
     (s : List Poly) {Uc : ℚ} (hUc : 0 ≤ Uc)
-    (hadm : ∀ cd ca cb, pool[d]? = some cd → pool[a]? = some ca → pool[b]? = some cb → ∀ q, mulCtParams env cd.ct ca.ct cb.ct = .ok q →
-      MulAdm env N r s Uc cd ca cb (dMulInto env N mk cd ca cb) q) :
+    (hadm : ∀ cd ca cb, pool[d]? = some cd → pool[a]? = some ca → pool[b]? = some cb → ∀ m, mulInto env cd.ct ca.ct cb.ct = .ok m →
+      ∀ q, mulCtParams env cd.ct ca.ct cb.ct = .ok q → MulAdm env N r s Uc cd ca cb (dMulInto env N mk cd ca cb) q) :
     XGoal env N r mk ak s pool (.mul d a b) mp
       (fun τ => specMul N (sn r s) Uc (ulpAt env mp d) (mdAt (DPool.cts pool) a).logDelta (mdAt (DPool.cts pool) b).logDelta τ d a b) := by
   obtain ⟨cd, ca, cb, m, hd, ha, hb, hda, hdb, hf, rfl⟩ := op3_ok' (show op3 _ d a b (mulInto env) = .ok mp from hm)
@@ -308,7 +308,7 @@ theorem xstep_mul {env : Env} (he : EnvOK env) {N r : Nat} {mk : MulKey} {ak : A
           push Not at h3
           exact ⟨⟨h1, h3.1⟩, ⟨h2, h3.2⟩⟩
   obtain ⟨c', h1, hct, hok, hv⟩ := mul_core he (hp.get hxa) (hp.get hxb) hq hlims.1.1 hlims.1.2 hlims.2.1 hlims.2.2 hUc
-    (hadm xd xa xb hxd hxa hxb q hq)
+    (hadm xd xa xb hxd hxa hxb m hf q hq)
   have hct' : c'.ct = m := by rw [hct, hmq]
   refine ⟨pool.set d c', dop3_ok hxd hxa hxb hda hdb h1, by rw [cts_set, hct'], hp.set d hok, fun τ hτ => ?_⟩
   simp only [specMul]
@@ -358,8 +358,8 @@ theorem squareInto_params {env : Env} {dst a m : Ct} (h : squareInto env dst a =
 theorem xstep_mulAssign {env : Env} (he : EnvOK env) {N r : Nat} {mk : MulKey} {ak : AutKeys} {pool : DPool}
     (hp : AllOK env N r pool) {d a : Nat} {mp : Pool} (hm : stepR env (DPool.cts pool) (.mulAssign d a) = .ok mp)
     (s : List Poly) {Uc : ℚ} (hUc : 0 ≤ Uc)
-    (hadm : ∀ cd ca, pool[d]? = some cd → pool[a]? = some ca → ∀ q, mulCtParams env cd.ct cd.ct ca.ct = .ok q →
-      MulAdm env N r s Uc cd cd ca (dMulInto env N mk cd cd ca) q) :
+    (hadm : ∀ cd ca, pool[d]? = some cd → pool[a]? = some ca → ∀ m, mulInto env cd.ct cd.ct ca.ct = .ok m →
+      ∀ q, mulCtParams env cd.ct cd.ct ca.ct = .ok q → MulAdm env N r s Uc cd cd ca (dMulInto env N mk cd cd ca) q) :
     XGoal env N r mk ak s pool (.mulAssign d a) mp
       (fun τ => specMul N (sn r s) Uc (ulpAt env mp d) (mdAt (DPool.cts pool) d).logDelta (mdAt (DPool.cts pool) a).logDelta τ d d a) := by
   obtain ⟨cd, ca, m, hd, ha, hda, hf, rfl⟩ := op2_ok' (show op2 _ d a (fun cd ca => mulInto env cd cd ca) = .ok mp from hm)
@@ -371,7 +371,7 @@ theorem xstep_mulAssign {env : Env} (he : EnvOK env) {N r : Nat} {mk : MulKey} {
   obtain ⟨hchk, hmq⟩ := finishMul_ok' hf'
   have hlims := tensorCheck_none hchk
   obtain ⟨c', h1, hct, hok, hv⟩ := mul_core he (hp.get hxd) (hp.get hxa) hq hlims.1.1 hlims.1.2 hlims.2.1 hlims.2.2 hUc
-    (hadm xd xa hxd hxa q hq)
+    (hadm xd xa hxd hxa m hf q hq)
   have hct' : c'.ct = m := by rw [hct, hmq]
   refine ⟨pool.set d c', dop2_ok hxd hxa hda h1, by rw [cts_set, hct'], hp.set d hok, fun τ hτ => ?_⟩
   simp only [specMul]
@@ -387,8 +387,8 @@ theorem xstep_mulAssign {env : Env} (he : EnvOK env) {N r : Nat} {mk : MulKey} {
 theorem xstep_square {env : Env} (he : EnvOK env) {N r : Nat} {mk : MulKey} {ak : AutKeys} {pool : DPool}
     (hp : AllOK env N r pool) {d a : Nat} {mp : Pool} (hm : stepR env (DPool.cts pool) (.square d a) = .ok mp)
     (s : List Poly) {Uc : ℚ} (hUc : 0 ≤ Uc)
-    (hadm : ∀ cd ca, pool[d]? = some cd → pool[a]? = some ca → ∀ q, mulCtParams env cd.ct ca.ct ca.ct = .ok q →
-      MulAdm env N r s Uc cd ca ca (dSquareInto env N mk cd ca) q) :
+    (hadm : ∀ cd ca, pool[d]? = some cd → pool[a]? = some ca → ∀ m, squareInto env cd.ct ca.ct = .ok m →
+      ∀ q, mulCtParams env cd.ct ca.ct ca.ct = .ok q → MulAdm env N r s Uc cd ca ca (dSquareInto env N mk cd ca) q) :
     XGoal env N r mk ak s pool (.square d a) mp
       (fun τ => specMul N (sn r s) Uc (ulpAt env mp d) (mdAt (DPool.cts pool) a).logDelta (mdAt (DPool.cts pool) a).logDelta τ d a a) := by
   obtain ⟨cd, ca, m, hd, ha, hda, hf, rfl⟩ := op2_ok' (show op2 _ d a (squareInto env) = .ok mp from hm)
@@ -396,7 +396,7 @@ theorem xstep_square {env : Env} (he : EnvOK env) {N r : Nat} {mk : MulKey} {ak 
   obtain ⟨xa, hxa, rfl⟩ := cts_some ha
   obtain ⟨q, hq, hchk, hmq⟩ := squareInto_params hf
   have hl := squareCheck_none hchk
-  obtain ⟨c', h1, hct, hok, hv⟩ := mul_core he (hp.get hxa) (hp.get hxa) hq hl.1 hl.2 hl.1 hl.2 hUc (hadm xd xa hxd hxa q hq)
+  obtain ⟨c', h1, hct, hok, hv⟩ := mul_core he (hp.get hxa) (hp.get hxa) hq hl.1 hl.2 hl.1 hl.2 hUc (hadm xd xa hxd hxa m hf q hq)
   have hct' : c'.ct = m := by rw [hct, hmq]
   refine ⟨pool.set d c', dop2_ok hxd hxa hda h1, by rw [cts_set, hct'], hp.set d hok, fun τ hτ => ?_⟩
   simp only [specMul]
@@ -412,7 +412,7 @@ theorem xstep_square {env : Env} (he : EnvOK env) {N r : Nat} {mk : MulKey} {ak 
 theorem xstep_squareAssign {env : Env} (he : EnvOK env) {N r : Nat} {mk : MulKey} {ak : AutKeys} {pool : DPool}
     (hp : AllOK env N r pool) {d : Nat} {mp : Pool} (hm : stepR env (DPool.cts pool) (.squareAssign d) = .ok mp)
     (s : List Poly) {Uc : ℚ} (hUc : 0 ≤ Uc)
-    (hadm : ∀ cd, pool[d]? = some cd → ∀ q, mulCtParams env cd.ct cd.ct cd.ct = .ok q →
+    (hadm : ∀ cd, pool[d]? = some cd → ∀ m, squareInto env cd.ct cd.ct = .ok m → ∀ q, mulCtParams env cd.ct cd.ct cd.ct = .ok q →
       MulAdm env N r s Uc cd cd cd (dSquareInto env N mk cd cd) q) :
     XGoal env N r mk ak s pool (.squareAssign d) mp
       (fun τ => specMul N (sn r s) Uc (ulpAt env mp d) (mdAt (DPool.cts pool) d).logDelta (mdAt (DPool.cts pool) d).logDelta τ d d d) := by
@@ -420,7 +420,7 @@ theorem xstep_squareAssign {env : Env} (he : EnvOK env) {N r : Nat} {mk : MulKey
   obtain ⟨xd, hxd, rfl⟩ := cts_some hd
   obtain ⟨q, hq, hchk, hmq⟩ := squareInto_params hf
   have hl := squareCheck_none hchk
-  obtain ⟨c', h1, hct, hok, hv⟩ := mul_core he (hp.get hxd) (hp.get hxd) hq hl.1 hl.2 hl.1 hl.2 hUc (hadm xd hxd q hq)
+  obtain ⟨c', h1, hct, hok, hv⟩ := mul_core he (hp.get hxd) (hp.get hxd) hq hl.1 hl.2 hl.1 hl.2 hUc (hadm xd hxd m hf q hq)
   have hct' : c'.ct = m := by rw [hct, hmq]
   refine ⟨pool.set d c', dop1_ok hxd h1, by rw [cts_set, hct'], hp.set d hok, fun τ hτ => ?_⟩
   simp only [specMul]
